@@ -146,6 +146,14 @@ inline randomx::JitCompilerX86* jit_of(Engine& e) {
 	return &static_cast<CompiledLightVmHardAesSecure*>(vm)->compiler;
 }
 
+// decoded bytecode of an interpreter engine (translation state of the interpreter)
+inline randomx::InstructionByteCode* bytecode_of(Engine& e) {
+	using namespace randomx;
+	if (e.flags & RANDOMX_FLAG_JIT) return nullptr;
+	if (e.flags & RANDOMX_FLAG_HARD_AES) return static_cast<InterpretedVm<Alloc, false>*>(e.vm)->bytecode;
+	return static_cast<InterpretedVm<Alloc, true>*>(e.vm)->bytecode;
+}
+
 // ------------------------------------------------------------------ instruction words and program buffers
 struct Word {
 	uint8_t op, dst, src, mod; uint32_t imm;
